@@ -130,6 +130,14 @@ def r1(R1, cfg, F):
             # the ManuallyDrop is never dropped / taken: the buffer's ownership moves into the header
             ok = not [c for c in fv.calls() if c.callee and re.search(r'ManuallyDrop::<T>::(drop|take|into_inner)$', c.callee.best)]
             why = 'the Vec wrapped in ManuallyDrop must not be released here'
+        if ok:
+            # ... and the Vec is only looked at: (ptr, len, capacity) must describe one and the same allocation, so nothing
+            # may modify the Vec (reallocate, shrink, truncate) between or after the three reads
+            muts = [c for c in fv.calls() if c.callee and not c.exp and (
+                (c.callee.defp == 'std::ops::DerefMut::deref_mut' and 'ManuallyDrop' in (c.callee.self_ty or '')) or
+                (c.callee.best.startswith('std::vec::Vec::<') and c.callee.recv_kind() in ('&mut self', 'self')))]
+            ok = not muts
+            why = 'the Vec is modified (%s) while its ptr / len / capacity are being recorded: the header may describe an allocation that no longer exists, and drop_slow frees with a stale layout' % [m.callee.best for m in muts]
     R1.check(ok, cfg, fv.path, 'alloc(header-only);cap=Vec::capacity;ptr=Vec::as_ptr', 'from_vec: %s' % why, fv.loc())
     # ---- drop_slow
     de = [c for c in ds.calls() if c.callee and c.callee.best == 'std::alloc::dealloc']
